@@ -695,15 +695,47 @@ pub fn run(run: &Run, replay: Option<&Value>) {
     let n1 = cases.len();
     run.space(&format!("single invocations: {} per format x {} formats", firsts.len(), FORMATS.len()), n1 as u64, true);
     let pair_formats: &[&'static str] = run.tier.pick(&FORMATS[..1], &FORMATS[..]);
+    // Quick tier: a pair is only explored when its first invocation, run alone, changes the file system
+    // (otherwise the second step starts from the unchanged pre-state). Thorough explores every pair.
+    let writes_alone: std::collections::BTreeSet<String> = if run.tier.is_thorough() {
+        Default::default()
+    } else {
+        let set: Mutex<std::collections::BTreeSet<String>> = Mutex::new(Default::default());
+        let probe: Vec<Case> = pair_formats
+            .iter()
+            .flat_map(|f| firsts.iter().map(move |(pre, inv)| Case { fmt: f, pre: *pre, invs: vec![*inv] }))
+            .collect();
+        par::for_each(&probe, |case| {
+            let obs = run_case(&tool, &seeds, case);
+            if obs.last().map(|o| !o.changes.is_empty()).unwrap_or(false) {
+                set.lock().unwrap().insert(format!("{}", case.to_json()));
+            }
+        });
+        set.into_inner().unwrap()
+    };
+    let mut skipped_firsts = 0u64;
     for f in pair_formats {
         for (pre, inv) in &firsts {
+            if !run.tier.is_thorough() {
+                let single = Case { fmt: f, pre: *pre, invs: vec![*inv] };
+                if !writes_alone.contains(&format!("{}", single.to_json())) {
+                    skipped_firsts += 1;
+                    continue;
+                }
+            }
             for s in &seconds {
                 cases.push(Case { fmt: f, pre: *pre, invs: vec![*inv, *s] });
             }
         }
     }
     run.space(
-        &format!("pairs: {} first invocations x {} second command lines x formats {:?}", firsts.len(), seconds.len(), pair_formats),
+        &format!(
+            "pairs: first invocations that change the file system when run alone ({} of {}; all in thorough) x {} second command lines x formats {:?}",
+            firsts.len() as u64 * pair_formats.len() as u64 - skipped_firsts,
+            firsts.len() * pair_formats.len(),
+            seconds.len(),
+            pair_formats
+        ),
         (cases.len() - n1) as u64,
         true,
     );
